@@ -186,43 +186,51 @@ func (p *Payload) GetChangeView() dbft.ChangeView {
 	if b, ok := p.body.(*changeView); ok {
 		return b
 	}
-	return nil
+	panic(getterMisuse("GetChangeView", p))
 }
 func (p *Payload) GetPrepareRequest() dbft.PrepareRequest[H] {
 	if b, ok := p.body.(*prepReq); ok {
 		return b
 	}
-	return nil
+	panic(getterMisuse("GetPrepareRequest", p))
 }
 func (p *Payload) GetPrepareResponse() dbft.PrepareResponse[H] {
 	if b, ok := p.body.(*prepResp); ok {
 		return b
 	}
-	return nil
+	panic(getterMisuse("GetPrepareResponse", p))
 }
 func (p *Payload) GetPreCommit() dbft.PreCommit {
 	if b, ok := p.body.(*preCommitBody); ok {
 		return b
 	}
-	return nil
+	panic(getterMisuse("GetPreCommit", p))
 }
 func (p *Payload) GetCommit() dbft.Commit {
 	if b, ok := p.body.(*commitBody); ok {
 		return b
 	}
-	return nil
+	panic(getterMisuse("GetCommit", p))
 }
 func (p *Payload) GetRecoveryRequest() dbft.RecoveryRequest {
 	if b, ok := p.body.(*recReq); ok {
 		return b
 	}
-	return nil
+	panic(getterMisuse("GetRecoveryRequest", p))
 }
 func (p *Payload) GetRecoveryMessage() dbft.RecoveryMessage[H] {
 	if b, ok := p.body.(*recMsg); ok {
 		return b
 	}
-	return nil
+	panic(getterMisuse("GetRecoveryMessage", p))
+}
+
+// getterMisuse: the typed getters are documented as "returns payload as if it was X"; the bundled reference
+// implementation (internal/consensus) does an unchecked type assertion there, i.e. it panics when the library asks a
+// payload of one type for the body of another. The harness payload does the same so that such a call is seen by the
+// panic watch of C11 instead of being silently answered with nil.
+func getterMisuse(getter string, p *Payload) string {
+	return "payload getter " + getter + "() called on a " + p.typ.String() + " payload (the bundled payload implementation panics here: interface conversion)"
 }
 
 // Hash is a content hash over every field of the payload.
